@@ -27,6 +27,22 @@ pub fn lengths<F: Family>(p: &F::Packet, ctx: &mut Ctx) -> CaseResult {
     };
     ensure!(bytes.len() - hl == rl, "remaining-length field says {} but {} bytes follow it; packet {}", rl, bytes.len() - hl, fam::render(p));
     ensure!(hl - 1 == varint_min_width(rl as u32), "remaining length {} encoded in {} bytes (not minimal)", rl, hl - 1);
+    // the async encoder is an encoder too: what it emits into a plain Vec has the reported length, and its header's
+    // remaining length is the number of bytes that follow
+    if bytes.len() <= 8 << 20 {
+        let mut out: Vec<u8> = Vec::new();
+        let (r, _) = crate::sio::drive(F::encode_async(p, &mut out), 64);
+        match r {
+            Ok(()) => {
+                ensure!(out.len() == bytes.len(), "encode_async emitted {} bytes into a Vec; the packet reports {}; packet {}", out.len(), bytes.len(), fam::render(p).chars().take(120).collect::<String>());
+                match refdec::frame_bounds(&out) {
+                    Ok((h2, r2)) => ensure!(out.len() - h2 == r2, "encode_async: the remaining-length field says {} but {} bytes follow it", r2, out.len() - h2),
+                    Err(e) => viol!("encode_async output has no well-formed fixed header ({:?})", e),
+                }
+            }
+            Err(e) => viol!("encode_async into a Vec failed ({:?}) although encode succeeded", e),
+        }
+    }
 
     let parts = F::parts(p);
     for (i, part) in parts.iter().enumerate() {
